@@ -2322,7 +2322,10 @@ def _attrs_to_init_script(
         lines.append("if _config._run_validators is True:")
         for a in attrs_to_validate:
             val_name = "__attr_validator_" + a.name
-            attr_name = "__attr_" + a.name
+            # "field_" keeps this name apart from the converter_/factory_/
+            # validator_ helpers of other fields (a field named "converter_y"
+            # used to collide with the converter of "y").
+            attr_name = "__attr_field_" + a.name
             lines.append(f"    {val_name}(self, {attr_name}, self.{a.name})")
             names_for_globals[val_name] = a.validator
             names_for_globals[attr_name] = a
